@@ -223,3 +223,12 @@ def etld_rejects_empty_labels(p):
     need = {("starts_with", 46), ("ends_with", 46), ("contains", "..")}
     ok = need <= pats or split_form
     return True, ok, et, cb, "the lookup is conditioned on the whole input passing %s" % (sorted(map(str, pats)) if not split_form else "split('.').any(empty) == false")
+
+
+def u2f_body(p, name):
+    """inlined view of <Authenticator as U2fApi>::<name>'s async body"""
+    from . import inline
+    tr = [t for t in p.traits.values() if t["path"].endswith("::U2fApi")]
+    if not tr:
+        return None
+    return inline.inlined(p, p.async_body(p.method(AUTH, name, trait=tr[0]["path"])), keep=(keep_named,))
